@@ -286,15 +286,53 @@ Fixpoint p_entry_formats {A} (n : nat) (paths : N) (acc : list (N * N)) (k : lis
 Definition p_file_entry_format {A} (k : list (N * N) -> prog A) : prog A :=
   PU 1 (fun cnt => p_entry_formats (N.to_nat cnt) 0 [] k).
 
-(* parse_directory_v5 / parse_file_v5: one parse_attribute per format component; the values are appended
-   ([content_type; tag; payload…] per component).  The MD5 block is read (read_u8_array) only by parse_file_v5. *)
-Fixpoint p_entry_v5 {A} (sfuel : nat) (fmt file : bool) (formats : list (N * N)) (acc : list N)
-    (k : list N -> prog A) : prog A :=
+(* parse_directory_v5 / parse_file_v5: one parse_attribute per format component, folded into the entry the
+   caller can observe: a directory is its DW_LNCT_path value; a file is
+   path ++ [directory_index; timestamp; size; md5] ++ source ([0;0] when absent).
+   The MD5 block is read (read_u8_array) only by parse_file_v5. *)
+Definition DW_LNCT_directory_index : N := 2.
+Definition DW_LNCT_timestamp : N := 3.
+Definition DW_LNCT_size : N := 4.
+Definition DW_LNCT_LLVM_source : N := 8193.
+
+Record fent : Type := mkFent { fe_path : list N; fe_dir : N; fe_ts : N; fe_size : N; fe_md5 : N; fe_src : list N }.
+Definition fent0 : fent := mkFent [0; 0] 0 0 0 0 [0; 0].
+
+(* AttributeValue::udata_value on the flat form *)
+Definition flat_udata (v : list N) : option N :=
+  match v with
+  | [t; n] =>
+      if (t =? T_Data1) || (t =? T_Data2) || (t =? T_Data4) || (t =? T_Data8) || (t =? T_Udata) then Some n
+      else if t =? T_Sdata then (if n <? two63 then Some n else None)
+      else None
+  | _ => None
+  end.
+
+Definition fent_update (file : bool) (ct : N) (v : list N) (e : fent) : fent :=
+  if ct =? DW_LNCT_path then mkFent (firstn 2 v) (fe_dir e) (fe_ts e) (fe_size e) (fe_md5 e) (fe_src e)
+  else if negb file then e
+  else if ct =? DW_LNCT_directory_index then
+    match flat_udata v with Some n => mkFent (fe_path e) n (fe_ts e) (fe_size e) (fe_md5 e) (fe_src e) | None => e end
+  else if ct =? DW_LNCT_timestamp then
+    match flat_udata v with Some n => mkFent (fe_path e) (fe_dir e) n (fe_size e) (fe_md5 e) (fe_src e) | None => e end
+  else if ct =? DW_LNCT_size then
+    match flat_udata v with Some n => mkFent (fe_path e) (fe_dir e) (fe_ts e) n (fe_md5 e) (fe_src e) | None => e end
+  else if ct =? DW_LNCT_MD5 then
+    match v with [_; _; m] => mkFent (fe_path e) (fe_dir e) (fe_ts e) (fe_size e) m (fe_src e) | _ => e end
+  else if ct =? DW_LNCT_LLVM_source then
+    mkFent (fe_path e) (fe_dir e) (fe_ts e) (fe_size e) (fe_md5 e) (firstn 2 v)
+  else e.
+
+Definition fent_flat (file : bool) (e : fent) : list N :=
+  if file then fe_path e ++ [fe_dir e; fe_ts e; fe_size e; fe_md5 e] ++ fe_src e else fe_path e.
+
+Fixpoint p_entry_v5 {A} (sfuel : nat) (fmt file : bool) (formats : list (N * N)) (e : fent)
+    (k : fent -> prog A) : prog A :=
   match formats with
-  | [] => k acc
+  | [] => k e
   | (ct, form) :: rest =>
       p_line_attr sfuel fmt (file && (ct =? DW_LNCT_MD5)) form
-        (fun v => p_entry_v5 sfuel fmt file rest (acc ++ ct :: v) k)
+        (fun v => p_entry_v5 sfuel fmt file rest (fent_update file ct v e) k)
   end.
 
 Fixpoint p_entries_v5 {A} (fuel sfuel : nat) (fmt file : bool) (formats : list (N * N)) (count : N)
@@ -302,15 +340,15 @@ Fixpoint p_entries_v5 {A} (fuel sfuel : nat) (fmt file : bool) (formats : list (
   if count =? 0 then k acc else
   match fuel with
   | O => PNoFuel
-  | S f => p_entry_v5 sfuel fmt file formats acc
-             (fun acc' => p_entries_v5 f sfuel fmt file formats (count - 1) acc' k)
+  | S f => p_entry_v5 sfuel fmt file formats fent0
+             (fun e => p_entries_v5 f sfuel fmt file formats (count - 1) (acc ++ fent_flat file e) k)
   end.
 
 (* version <= 4 include_directories: NUL-terminated strings up to an empty one *)
 Fixpoint p_dirs_v4 {A} (fuel sfuel : nat) (acc : list N) (k : list N -> prog A) : prog A :=
   match fuel with
   | O => PNoFuel
-  | S f => p_cstr sfuel 0 (fun n => if n =? 0 then k acc else p_dirs_v4 f sfuel (acc ++ [n]) k)
+  | S f => p_cstr sfuel 0 (fun n => if n =? 0 then k acc else p_dirs_v4 f sfuel (acc ++ [T_String; n]) k)
   end.
 
 (* version <= 4 file_names: string, then FileEntry::parse = three uleb128 *)
@@ -319,7 +357,7 @@ Fixpoint p_files_v4 {A} (fuel sfuel : nat) (acc : list N) (k : list N -> prog A)
   | O => PNoFuel
   | S f => p_cstr sfuel 0 (fun n =>
              if n =? 0 then k acc
-             else PUleb (fun d => PUleb (fun t => PUleb (fun s => p_files_v4 f sfuel (acc ++ [n; d; t; s]) k))))
+             else PUleb (fun d => PUleb (fun t => PUleb (fun s => p_files_v4 f sfuel (acc ++ [T_String; n; d; t; s; 0; 0; 0]) k))))
   end.
 
 (* standard_opcode_lengths = rest.split(opcode_base - 1); LineInstruction::parse reads one of its bytes lazily
@@ -524,8 +562,8 @@ Definition p_aranges (fuel : nat) : prog (list N) :=
            PSkip padding (p_arange_tuples fuel asz [length; word_size fmt; ver; dio; asz]))))))
       (fun x => PRet x)).
 
-(* PubStuffParser::parse_entry iterated within one set: [die offset; name length] until offset 0 / set end *)
-Fixpoint p_pub_entries (fuel sfuel : nat) (fmt : bool) (acc : list N) : prog (list N) :=
+(* PubStuffParser::parse_entry iterated within one set: [unit_offset; die offset; name length] until offset 0 / set end *)
+Fixpoint p_pub_entries (fuel sfuel : nat) (fmt : bool) (uo : N) (acc : list N) : prog (list N) :=
   match fuel with
   | O => PNoFuel
   | S f =>
@@ -533,11 +571,11 @@ Fixpoint p_pub_entries (fuel sfuel : nat) (fmt : bool) (acc : list N) : prog (li
         if l =? 0 then PRet acc
         else POffset fmt (fun o =>
           if o =? 0 then PRet acc
-          else p_cstr sfuel 0 (fun n => p_pub_entries f sfuel fmt (acc ++ [o; n]))))
+          else p_cstr sfuel 0 (fun n => p_pub_entries f sfuel fmt uo (acc ++ [uo; o; n]))))
   end.
 
 (* LookupEntryIter::next over all sets of .debug_pubnames / .debug_pubtypes:
-   per set [length; fmt; unit_offset; unit_length; entries…] *)
+   the entries of all sets (what the public iterator yields); unit_length is read_length: plain *)
 Fixpoint p_pubnames (fuel sfuel : nat) (acc : list N) : prog (list N) :=
   match fuel with
   | O => PNoFuel
@@ -550,7 +588,7 @@ Fixpoint p_pubnames (fuel sfuel : nat) (acc : list N) : prog (list N) :=
                if negb (ver =? 2) then PFail EUnknownVersion else
                POffset fmt (fun unit_offset =>
                PWord fmt (fun unit_length =>
-               p_pub_entries sfuel sfuel fmt (acc ++ [length; word_size fmt; unit_offset; unit_length])))))
+               p_pub_entries sfuel sfuel fmt unit_offset acc))))
             (fun acc' => p_pubnames f sfuel acc')))
   end.
 
